@@ -99,13 +99,13 @@ c15!(c15_valve, {
     let players = if with_players {
         Some(vec![
             valve::ServerPlayer { name: "Al".to_string(), score: s0, duration: 1.0, deaths: None, money: None },
-            valve::ServerPlayer { name: "Bo".to_string(), score: s1, duration: 2.0, deaths: None, money: None },
+            valve::ServerPlayer { name: "".to_string(), score: s1, duration: 2.0, deaths: None, money: None },
         ])
     } else {
         None
     };
     let r = valve::Response { info, players, rules: None };
-    let want = [("Al", Some(s0)), ("Bo", Some(s1))];
+    let want = [("Al", Some(s0)), ("", Some(s1))];
     view_is(&r, Some("Nm"), None, Some("G"), Some("1.0"), Some("M"), max as u32, online as u32, Some(bots as u32),
             Some(pw), if with_players { Some(&want[..]) } else { None });
     match r.as_original() {
